@@ -191,7 +191,7 @@ fn check_text(case: &Case, obs: &mut Obs) -> Verdict {
     }
     let lines: Vec<std::borrow::Cow<str>> = if case.sub == "text_fill" {
         // the same claim for fill's lines (fill has its own fast path)
-        textwrap::fill(text, o.build()).split(o.le()).map(|l| std::borrow::Cow::Owned(l.to_string())).collect()
+        o.fill(text).split(o.le()).map(|l| std::borrow::Cow::Owned(l.to_string())).collect()
     } else {
         textwrap::wrap(text, o.build())
     };
